@@ -65,7 +65,12 @@ func (bmach *Bondmachine) Fitness_default(in *simbox.Simbox, exp *simbox.Simbox,
 			}
 		}
 
-		// TODO Periodic set
+		// Periodic set: every period that divides the tick
+		for _, act := range sdrive.PeriodicSets(i) {
+			for k, val := range act {
+				*sdrive.Injectables[k] = val
+			}
+		}
 
 		if _, err := vm.Step(sconfig); err != nil {
 			return 0, err
